@@ -916,3 +916,352 @@ Proof.
   - exists marks', cm', M', loc'. split; [|exact Hok]. rewrite E.
     pose proof (dd_fold tb [] w [] ltac:(lia) eq_refl) as F. cbn [app length] in F. rewrite F. reflexivity.
 Qed.
+
+(* ------------------------------------------------------------------ direct *)
+
+Lemma mark_all_iff M : forall l marks k, (forall y, In y l -> y < length marks) -> k < length marks ->
+  (nth k (mark_all M l marks) 0 = M <-> nth k marks 0 = M \/ In k l).
+Proof.
+  induction l as [|y l IH]; intros marks k Hlt Hk; cbn [mark_all fold_left In]; [tauto|].
+  fold (mark_all M l (set_nth y marks M)).
+  rewrite IH; [|intros z Hz; rewrite length_set_nth; apply Hlt; now right|now rewrite length_set_nth].
+  destruct (Nat.eq_dec y k) as [->|Hne].
+  - rewrite nth_set_nth_eq by exact Hk. tauto.
+  - rewrite nth_set_nth_neq by exact Hne. split; [intros [H|H]; tauto|intros [H|[H|H]]; [tauto|contradiction|tauto]].
+Qed.
+
+Definition with_marks (s : mk_st) (marks : list nat) : mk_st :=
+  mk_mk (m_tb s) (m_dir s) (m_der s) marks (m_weight s) (m_cmark s) (m_mark s) (m_local s).
+
+Lemma setmark_loop x : forall l tb dir der marks w cm M loc, (forall y, In y l -> y < length marks) ->
+  ofor (fun i s' => mk_exec (LSetMark RRtbb) (eset RRtbb (Some i) x) s') l (mk_mk tb dir der marks w cm M loc)
+  = Some (mk_mk tb dir der (mark_all M l marks) w cm M loc).
+Proof.
+  induction l as [|y l IH]; intros tb dir der marks w cm M loc Hlt; cbn [ofor mark_all fold_left]; [reflexivity|].
+  fold (mark_all M l (set_nth y marks M)).
+  assert (E : mk_exec (LSetMark RRtbb) (eset RRtbb (Some y) x) (mk_mk tb dir der marks w cm M loc)
+              = Some (mk_mk tb dir der (set_nth y marks M) w cm M loc)).
+  { cbn [mk_exec eget eset e_rtbb m_marks m_mark m_tb m_dir m_der m_weight m_cmark m_local].
+    assert (Hy : (y <? length marks) = true) by (apply Nat.ltb_lt; apply Hlt; now left). now rewrite Hy. }
+  rewrite E. apply IH. intros z Hz. rewrite length_set_nth. apply Hlt. now right.
+Qed.
+
+(* the marking pass of the model, from any starting point *)
+Definition dstep (t : list (list nat)) (p : list nat * list nat) (b : nat) : list nat * list nat :=
+  if memn b (snd p) then p else (fst p ++ [b], snd p ++ nth b t []).
+Lemma direct_of_fold t l : direct_of t l = fst (fold_left (dstep t) l ([], [])).
+Proof.
+  unfold direct_of. f_equal. generalize (@nil nat, @nil nat).
+  induction l as [|b l IH]; intros [d m]; cbn [fold_left]; [reflexivity|].
+  rewrite IH. f_equal.
+Qed.
+
+Definition dir_body : lstmt := LIf (KMarkNe RRtb) (LSeq (LPushDir RRtc RRtb) (LFor RRtbb (LTb RRtb) (LSetMark RRtbb))).
+
+Section DirInner.
+  Variables (n c : nat) (t : list (list nat)) (dir0 der : list (list nat)) (w : list nat) (cm M : nat) (loc : list nat).
+  Hypothesis Hc : c < length dir0.
+  Hypothesis Hwf : forall b y, In y (nth b t []) -> y < n.
+
+  Lemma dir_inner x : e_rtc x = Some c -> forall l dcur marks marked,
+    length marks = n -> (forall b, In b l -> b < n) ->
+    (forall k, k < n -> (nth k marks 0 = M <-> In k marked)) ->
+    exists marks',
+      ofor (fun i s' => mk_exec dir_body (eset RRtb (Some i) x) s') l (mk_mk t (set_nth c dir0 dcur) der marks w cm M loc)
+      = Some (mk_mk t (set_nth c dir0 (fst (fold_left (dstep t) l (dcur, marked)))) der marks' w cm M loc)
+      /\ length marks' = n
+      /\ (forall k, nth k marks' 0 = nth k marks 0 \/ nth k marks' 0 = M).
+  Proof.
+    intro Hx. induction l as [|b l IH]; intros dcur marks marked Hlen Hl Hinv; cbn [ofor fold_left].
+    - exists marks. split; [reflexivity|]. split; [exact Hlen|]. intro k. now left.
+    - assert (Hb : b < n) by (apply Hl; now left).
+      assert (Estep : mk_exec dir_body (eset RRtb (Some b) x) (mk_mk t (set_nth c dir0 dcur) der marks w cm M loc)
+                      = if Nat.eqb (nth b marks 0) M then Some (mk_mk t (set_nth c dir0 dcur) der marks w cm M loc)
+                        else Some (mk_mk t (set_nth c dir0 (dcur ++ [b])) der (mark_all M (nth b t []) marks) w cm M loc)).
+      { unfold dir_body. remember (LFor RRtbb (LTb RRtb) (LSetMark RRtbb)) as B eqn:HB.
+        cbn [mk_exec mk_cond eget eset e_rtb m_marks m_mark].
+        destruct (Nat.eqb (nth b marks 0) M); cbn [negb]; [reflexivity|].
+        cbn [mk_exec eget eset e_rtb e_rtc m_tb m_dir m_der m_marks m_weight m_cmark m_mark m_local]. rewrite Hx. subst B.
+        rewrite (mk_for_tb RRtbb RRtb _ _ _ b) by reflexivity. cbn [m_tb].
+        unfold upd_nth. rewrite nth_set_nth_eq by exact Hc. rewrite set_nth_set_nth.
+        apply setmark_loop. intros y Hy. rewrite Hlen. now apply (Hwf b). }
+      rewrite Estep. unfold dstep at 2. cbn [fst snd].
+      destruct (Nat.eqb_spec (nth b marks 0) M) as [E|E].
+      + assert (Hm : memn b marked = true) by (apply memn_In; now apply (Hinv b Hb)). rewrite Hm.
+        apply IH; [exact Hlen|intros z Hz; apply Hl; now right|exact Hinv].
+      + assert (Hm : memn b marked = false) by (apply memn_false; intro Hin; apply E; now apply (Hinv b Hb)). rewrite Hm.
+        destruct (IH (dcur ++ [b]) (mark_all M (nth b t []) marks) (marked ++ nth b t [])) as [marks' [E' [L' K']]].
+        * now rewrite length_mark_all.
+        * intros z Hz. apply Hl. now right.
+        * intros k Hk. rewrite mark_all_iff; [|intros y Hy; rewrite Hlen; now apply (Hwf b)|now rewrite Hlen].
+          rewrite (Hinv k Hk), in_app_iff. tauto.
+        * exists marks'. split; [exact E'|]. split; [exact L'|]. intro k.
+          destruct (K' k) as [H|H]; [|now right]. rewrite H. apply nth_mark_all.
+  Qed.
+End DirInner.
+
+Definition sortw (W : list nat) (l : list nat) : list nat := sort_by_weight (fun k => nth k W 0) l.
+Definition dir_class_body : lstmt := LSeq LSortTbByWeight (LSeq LNewMark (LFor RRtb (LTb RRtc) dir_body)).
+
+Definition dcl_step (W : list nat) (p : list (list nat) * list (list nat)) (c : nat) : list (list nat) * list (list nat) :=
+  let t' := set_nth c (fst p) (sortw W (nth c (fst p) [])) in
+  (t', set_nth c (snd p) (fst (fold_left (dstep t') (nth c t' []) (nth c (snd p) [], [])))).
+
+Lemma dir_class x c n t dir der marks W cm M loc : length t = n -> length dir = n -> c < n -> marks_ok n marks cm ->
+  (forall b y, In y (nth b t []) -> y < n) ->
+  exists marks',
+    mk_exec dir_class_body (eset RRtc (Some c) x) (mk_mk t dir der marks W cm M loc)
+    = Some (mk_mk (fst (dcl_step W (t, dir) c)) (snd (dcl_step W (t, dir) c)) der marks' W (S cm) (S cm) loc)
+    /\ marks_ok n marks' (S cm).
+Proof.
+  intros Ht Hd Hc [Hlen Hle] Hwf. unfold dir_class_body.
+  assert (Hx : e_rtc (eset RRtc (Some c) x) = Some c) by (destruct x; reflexivity).
+  remember (LFor RRtb (LTb RRtc) dir_body) as B eqn:HB.
+  cbn [mk_exec eget]. rewrite Hx. cbn [mk_exec m_tb m_dir m_der m_marks m_weight m_cmark m_mark m_local]. subst B.
+  rewrite (mk_for_tb RRtb RRtc dir_body _ _ c) by exact Hx. cbn [m_tb].
+  unfold weight_of. cbn [m_weight]. fold (sortw W (nth c t [])).
+  set (t' := set_nth c t (sortw W (nth c t []))).
+  assert (Hwf' : forall b y, In y (nth b t' []) -> y < n).
+  { intros b y Hin. unfold t' in Hin. destruct (Nat.eq_dec c b) as [->|Hne].
+    - rewrite nth_set_nth_eq in Hin by lia. unfold sortw in Hin. apply sort_by_weight_In in Hin. now apply (Hwf b).
+    - rewrite nth_set_nth_neq in Hin by exact Hne. now apply (Hwf b). }
+  destruct (dir_inner n c t' dir der W (S cm) (S cm) loc ltac:(lia) Hwf' (eset RRtc (Some c) x) Hx
+                      (nth c t' []) (nth c dir []) marks []) as [marks' [E [L K]]].
+  - exact Hlen.
+  - intros b Hb. now apply (Hwf' c).
+  - intros k _. cbn [In]. specialize (Hle k). split; [lia|tauto].
+  - rewrite (set_nth_nth [] c dir) in E.
+    exists marks'. split; [exact E|]. split; [exact L|]. intro k. destruct (K k) as [H|H]; rewrite H; [specialize (Hle k); lia|lia].
+Qed.
+
+Lemma length_dcl_step W p c : length (fst (dcl_step W p c)) = length (fst p) /\ length (snd (dcl_step W p c)) = length (snd p).
+Proof. unfold dcl_step. cbn [fst snd]. now rewrite !length_set_nth. Qed.
+
+Lemma dcl_step_wf W n p c : (forall b y, In y (nth b (fst p) []) -> y < n) ->
+  forall b y, In y (nth b (fst (dcl_step W p c)) []) -> y < n.
+Proof.
+  intros H b y Hin. unfold dcl_step in Hin. cbn [fst] in Hin. destruct (Nat.eq_dec c b) as [->|Hne].
+  - destruct (Nat.lt_ge_cases b (length (fst p))) as [Hlt|Hge].
+    + rewrite nth_set_nth_eq in Hin by exact Hlt. unfold sortw in Hin. apply sort_by_weight_In in Hin. now apply (H b).
+    + rewrite set_nth_oob in Hin by exact Hge. now apply (H b).
+  - rewrite nth_set_nth_neq in Hin by exact Hne. now apply (H b).
+Qed.
+
+Lemma dir_outer x n W der : forall cs t dir marks cm M loc, length t = n -> length dir = n -> (forall c, In c cs -> c < n) ->
+  marks_ok n marks cm -> (forall b y, In y (nth b t []) -> y < n) ->
+  exists marks' cm' M',
+    ofor (fun i s' => mk_exec dir_class_body (eset RRtc (Some i) x) s') cs (mk_mk t dir der marks W cm M loc)
+    = Some (mk_mk (fst (fold_left (dcl_step W) cs (t, dir))) (snd (fold_left (dcl_step W) cs (t, dir))) der marks' W cm' M' loc)
+    /\ marks_ok n marks' cm'.
+Proof.
+  induction cs as [|c cs IH]; intros t dir marks cm M loc Ht Hd Hcs Hok Hwf; cbn [ofor fold_left].
+  - exists marks, cm, M. split; [reflexivity|exact Hok].
+  - destruct (dir_class x c n t dir der marks W cm M loc Ht Hd (Hcs c (or_introl eq_refl)) Hok Hwf) as [marks1 [E Hok1]]. rewrite E.
+    destruct (length_dcl_step W (t, dir) c) as [L1 L2]. cbn [fst snd] in L1, L2.
+    destruct (IH (fst (dcl_step W (t, dir) c)) (snd (dcl_step W (t, dir) c)) marks1 (S cm) (S cm) loc) as [marks' [cm' [M' [E' Hok']]]].
+    + now rewrite L1.
+    + now rewrite L2.
+    + intros c' H. apply Hcs. now right.
+    + exact Hok1.
+    + apply (dcl_step_wf W n (t, dir) c). exact Hwf.
+    + exists marks', cm', M'. split; [|exact Hok'].
+      rewrite E'. now destruct (dcl_step W (t, dir) c).
+Qed.
+
+(* the pure part of the direct stage *)
+Definition mem_eq (t1 t2 : list (list nat)) : Prop := forall b y, In y (nth b t1 []) <-> In y (nth b t2 []).
+
+Lemma memn_iff x l1 l2 : (forall y, In y l1 <-> In y l2) -> memn x l1 = memn x l2.
+Proof.
+  intro H. destruct (memn x l2) eqn:E.
+  - apply memn_In. apply H. now apply memn_In.
+  - apply memn_false. apply memn_false in E. intro Hin. apply E. now apply H.
+Qed.
+
+Lemma dfold_ext t1 t2 : mem_eq t1 t2 -> forall l d m1 m2, (forall y, In y m1 <-> In y m2) ->
+  fst (fold_left (dstep t1) l (d, m1)) = fst (fold_left (dstep t2) l (d, m2)).
+Proof.
+  intro Hm. induction l as [|b l IH]; intros d m1 m2 H; cbn [fold_left]; [reflexivity|].
+  unfold dstep at 2 4. cbn [fst snd]. rewrite (memn_iff b m1 m2 H).
+  destruct (memn b m2); [now apply IH|].
+  apply IH. intro y. rewrite !in_app_iff, (H y), (Hm b y). tauto.
+Qed.
+
+Lemma sort_by_weight_ext f g l : (forall k, f k = g k) -> sort_by_weight f l = sort_by_weight g l.
+Proof.
+  intro H. unfold sort_by_weight. induction l as [|x l IH]; cbn [fold_right]; [reflexivity|]. rewrite IH.
+  generalize (fold_right (insert_by g) [] l). intro acc. induction acc as [|y acc IHa]; cbn [insert_by]; [reflexivity|].
+  rewrite !H, IHa. reflexivity.
+Qed.
+
+Lemma nth_map_length (t : list (list nat)) k : nth k (map (@length nat) t) 0 = length (nth k t []).
+Proof.
+  destruct (Nat.lt_ge_cases k (length t)) as [Hlt|Hge].
+  - now apply nth_map_lt.
+  - rewrite !nth_overflow; [reflexivity|exact Hge|now rewrite map_length].
+Qed.
+
+Section DirectPure.
+  Variables (n : nat) (W : list nat) (tb2 : list (list nat)).
+  Hypothesis Hlen : length tb2 = n.
+
+  Definition dinv (k : nat) (p : list (list nat) * list (list nat)) : Prop :=
+    length (fst p) = n /\ length (snd p) = n /\
+    (forall c, c < k -> c < n -> nth c (fst p) [] = sortw W (nth c tb2 []) /\ nth c (snd p) [] = direct_of tb2 (sortw W (nth c tb2 []))) /\
+    (forall c, k <= c -> nth c (fst p) [] = nth c tb2 [] /\ nth c (snd p) [] = []).
+
+  Lemma dinv_mem_eq k p : dinv k p -> mem_eq (fst p) tb2.
+  Proof.
+    intros [L1 [L2 [Hlo Hhi]]] b y. destruct (Nat.lt_ge_cases b k) as [Hb|Hb].
+    - destruct (Nat.lt_ge_cases b n) as [Hbn|Hbn].
+      + destruct (Hlo b Hb Hbn) as [E _]. rewrite E. unfold sortw. apply sort_by_weight_In.
+      + rewrite !nth_overflow by lia. tauto.
+    - destruct (Hhi b Hb) as [E _]. now rewrite E.
+  Qed.
+
+  Lemma dinv_step k p : dinv k p -> k < n -> dinv (S k) (dcl_step W p k).
+  Proof.
+    intros Hinv Hk. pose proof (dinv_mem_eq k p Hinv) as Hme. destruct Hinv as [L1 [L2 [Hlo Hhi]]].
+    destruct (Hhi k (Nat.le_refl k)) as [Ek Dk].
+    unfold dcl_step. cbn [fst snd].
+    set (t' := set_nth k (fst p) (sortw W (nth k (fst p) []))).
+    assert (Ht' : nth k t' [] = sortw W (nth k tb2 [])) by (unfold t'; rewrite nth_set_nth_eq by lia; now rewrite Ek).
+    assert (Hme' : mem_eq t' tb2).
+    { intros b y. unfold t'. destruct (Nat.eq_dec k b) as [<-|Hne].
+      - rewrite nth_set_nth_eq by lia. rewrite Ek. unfold sortw. apply sort_by_weight_In.
+      - rewrite nth_set_nth_neq by exact Hne. apply Hme. }
+    unfold dinv. cbn [fst snd].
+    split; [unfold t'; now rewrite length_set_nth|]. split; [now rewrite length_set_nth|]. split.
+    - intros c Hc Hcn. destruct (Nat.eq_dec c k) as [->|Hne].
+      + split; [exact Ht'|].
+        rewrite nth_set_nth_eq by lia. rewrite Ht', Dk, direct_of_fold.
+        apply dfold_ext; [exact Hme'|tauto].
+      + unfold t'. rewrite !nth_set_nth_neq by auto. apply Hlo; lia.
+    - intros c Hc. unfold t'. rewrite !nth_set_nth_neq by lia. apply Hhi. lia.
+  Qed.
+
+  Lemma dinv_fold : forall k, k <= n -> dinv k (fold_left (dcl_step W) (seq 0 k) (tb2, repeat [] n)).
+  Proof.
+    induction k as [|k IH]; intro Hk.
+    - cbn [seq fold_left]. unfold dinv. cbn [fst snd]. split; [exact Hlen|]. split; [apply repeat_length|]. split.
+      + intros c Hc. lia.
+      + intros c _. split; [reflexivity|apply nth_repeat_nil].
+    - rewrite seq_S, fold_left_app. cbn [fold_left plus]. apply dinv_step; [apply IH; lia|lia].
+  Qed.
+
+  Theorem direct_fold_all :
+    fold_left (dcl_step W) (seq 0 n) (tb2, repeat [] n)
+    = (map (sortw W) tb2, map (fun l => direct_of tb2 (sortw W l)) tb2).
+  Proof.
+    destruct (dinv_fold n (Nat.le_refl n)) as [L1 [L2 [Hlo _]]].
+    destruct (fold_left (dcl_step W) (seq 0 n) (tb2, repeat [] n)) as [t d]. cbn [fst snd] in *. f_equal.
+    - apply (nth_ext _ _ [] []); [now rewrite map_length, L1|]. intros c Hc. rewrite L1 in Hc.
+      destruct (Hlo c Hc Hc) as [E _]. rewrite E. symmetry. apply (nth_map_lt (sortw W) tb2 c [] []). lia.
+    - apply (nth_ext _ _ [] []); [now rewrite map_length, L2|]. intros c Hc. rewrite L2 in Hc.
+      destruct (Hlo c Hc Hc) as [_ E]. rewrite E. symmetry.
+      apply (nth_map_lt (fun l => direct_of tb2 (sortw W l)) tb2 c [] []). lia.
+  Qed.
+End DirectPure.
+
+Theorem src_direct tb2 der marks W cm M loc n :
+  length tb2 = n -> marks_ok n marks cm -> (forall b y, In y (nth b tb2 []) -> y < n) ->
+  exists marks' cm' M',
+    mk_exec gen_direct env0 (mk_mk tb2 (repeat [] n) der marks W cm M loc)
+    = Some (mk_mk (map (sortw W) tb2) (map (fun l => direct_of tb2 (sortw W l)) tb2) der marks' W cm' M' loc)
+    /\ marks_ok n marks' cm'.
+Proof.
+  intros Hlen Hok Hwf. change gen_direct with (LForClasses dir_class_body). rewrite mk_for_classes. cbn [m_tb].
+  destruct (dir_outer env0 n W der (seq 0 (length tb2)) tb2 (repeat [] n) marks cm M loc Hlen (repeat_length _ _)) as [marks' [cm' [M' [E Hok']]]].
+  - intros c Hc. apply in_seq in Hc. lia.
+  - exact Hok.
+  - exact Hwf.
+  - exists marks', cm', M'. split; [|exact Hok']. rewrite E, Hlen. now rewrite (direct_fold_all n W tb2 Hlen).
+Qed.
+
+(* ------------------------------------------------------------------ dedup, direct, derived together *)
+
+Lemma dfold_sub t : forall l d m x, In x (fst (fold_left (dstep t) l (d, m))) -> In x d \/ In x l.
+Proof.
+  induction l as [|b l IH]; intros d m x H; cbn [fold_left] in H; [now left|].
+  unfold dstep at 2 in H. cbn [fst snd] in H. destruct (memn b m).
+  - destruct (IH d m x H); [now left|right; now right].
+  - destruct (IH (d ++ [b]) _ x H) as [H'|H']; [|right; now right].
+    apply in_app_or in H'. destruct H' as [H'|[->|[]]]; [now left|right; now left].
+Qed.
+
+Lemma NoDup_app_snoc (d : list nat) b : NoDup d -> ~ In b d -> NoDup (d ++ [b]).
+Proof.
+  intros Hd Hb. induction Hd as [|x d Hx Hd IH]; cbn [app]; [constructor; [intros []|constructor]|].
+  constructor.
+  - intro Hin. apply in_app_or in Hin. destruct Hin as [Hin|[->|[]]]; [now apply Hx|apply Hb; now left].
+  - apply IH. intro Hin. apply Hb. now right.
+Qed.
+
+Lemma dfold_NoDup t : forall l d m, NoDup l -> NoDup d -> (forall x, In x d -> ~ In x l) ->
+  NoDup (fst (fold_left (dstep t) l (d, m))).
+Proof.
+  induction l as [|b l IH]; intros d m Hl Hd Hdis; cbn [fold_left]; [exact Hd|].
+  inversion Hl as [|? ? Hb Hl']; subst. unfold dstep at 2. cbn [fst snd]. destruct (memn b m).
+  - apply IH; [exact Hl'|exact Hd|]. intros x Hx Hin. apply (Hdis x Hx). now right.
+  - apply IH; [exact Hl'| |].
+    + apply NoDup_app_snoc; [exact Hd|]. intro Hin. apply (Hdis b Hin). now left.
+    + intros x Hx Hin. apply in_app_or in Hx. destruct Hx as [Hx|[->|[]]]; [apply (Hdis x Hx); now right|now apply Hb].
+Qed.
+
+Theorem src_lattice_back tb1 n marks W0 cm M loc :
+  length tb1 = n -> length W0 = n -> marks_ok n marks cm -> (forall c y, In y (nth c tb1 []) -> y < n) ->
+  let tb2 := map (fun l => dedupn l []) tb1 in
+  let w := fun c => length (nth c tb2 []) in
+  let tb3 := map (sort_by_weight w) tb2 in
+  let direct := map (direct_of tb2) tb3 in
+  let derived := map (derived_of direct) (seq 0 n) in
+  exists s1 s2 s3,
+    mk_exec gen_dedup env0 (mk_mk tb1 (repeat [] n) (repeat [] n) marks W0 cm M loc) = Some s1 /\
+    mk_exec gen_direct env0 s1 = Some s2 /\
+    mk_exec gen_derived env0 s2 = Some s3 /\
+    m_tb s3 = tb3 /\ m_dir s3 = direct /\ m_der s3 = derived.
+Proof.
+  intros Htb HW Hok Hwf tb2 w tb3 direct derived.
+  destruct (src_dedup tb1 (repeat [] n) (repeat [] n) marks W0 cm M loc n Htb HW Hok Hwf) as [marks1 [cm1 [M1 [loc1 [E1 Hok1]]]]].
+  fold (map dd tb1) in E1. change (map dd tb1) with tb2 in E1.
+  set (W := map (fun l => length (dd l)) tb1) in E1.
+  assert (Htb2 : length tb2 = n) by (unfold tb2; now rewrite map_length).
+  assert (Hwf2 : forall b y, In y (nth b tb2 []) -> y < n).
+  { intros b y Hin. unfold tb2 in Hin. destruct (Nat.lt_ge_cases b (length tb1)) as [Hb|Hb].
+    - rewrite (nth_map_lt (fun l => dedupn l []) tb1 b [] []) in Hin by exact Hb. apply dedupn_In in Hin. now apply (Hwf b).
+    - rewrite nth_overflow in Hin by (now rewrite map_length). contradiction. }
+  destruct (src_direct tb2 (repeat [] n) marks1 W cm1 M1 loc1 n Htb2 Hok1 Hwf2) as [marks2 [cm2 [M2 [E2 Hok2]]]].
+  assert (HWw : forall k, nth k W 0 = w k).
+  { intro k. unfold W, w, tb2. rewrite <- nth_map_length, map_map. reflexivity. }
+  assert (Hsort : forall l, sortw W l = sort_by_weight w l) by (intro l; unfold sortw; now apply sort_by_weight_ext).
+  assert (Et : map (sortw W) tb2 = tb3) by (unfold tb3; apply map_ext; exact Hsort).
+  assert (Ed : map (fun l => direct_of tb2 (sortw W l)) tb2 = direct).
+  { unfold direct, tb3. rewrite map_map. apply map_ext. intro l. now rewrite Hsort. }
+  rewrite Et, Ed in E2.
+  set (s2 := mk_mk tb3 direct (repeat [] n) marks2 W cm2 M2 loc1) in E2.
+  assert (Hnd : forall c, NoDup (nth c direct [])).
+  { intro c. unfold direct. destruct (Nat.lt_ge_cases c (length tb3)) as [Hc|Hc].
+    - rewrite (nth_map_lt (direct_of tb2) tb3 c [] []) by exact Hc. rewrite direct_of_fold.
+      apply dfold_NoDup; [|constructor|intros x []].
+      unfold tb3. rewrite (nth_map_lt (sort_by_weight w) tb2 c [] []) by (unfold tb3 in Hc; now rewrite map_length in Hc).
+      apply sort_by_weight_NoDup. unfold tb2.
+      destruct (Nat.lt_ge_cases c (length tb1)) as [Hc1|Hc1].
+      + rewrite (nth_map_lt (fun l => dedupn l []) tb1 c [] []) by exact Hc1. apply dedupn_NoDup.
+      + rewrite nth_overflow by (now rewrite map_length). constructor.
+    - rewrite nth_overflow by (now rewrite map_length). constructor. }
+  assert (Hlt : forall c b, In b (nth c direct []) -> b < n).
+  { intros c b Hin. unfold direct in Hin. destruct (Nat.lt_ge_cases c (length tb3)) as [Hc|Hc].
+    - rewrite (nth_map_lt (direct_of tb2) tb3 c [] []) in Hin by exact Hc. rewrite direct_of_fold in Hin.
+      apply dfold_sub in Hin. destruct Hin as [[]|Hin].
+      unfold tb3 in Hin. rewrite (nth_map_lt (sort_by_weight w) tb2 c [] []) in Hin by (unfold tb3 in Hc; now rewrite map_length in Hc).
+      apply sort_by_weight_In in Hin. now apply (Hwf2 c).
+    - rewrite nth_overflow in Hin by (now rewrite map_length). contradiction. }
+  destruct (src_derived s2 n) as [s3 [E3 [D3 S3]]].
+  - unfold s2. cbn [m_tb]. unfold tb3. now rewrite map_length.
+  - unfold s2. cbn [m_dir]. unfold direct, tb3. now rewrite !map_length.
+  - reflexivity.
+  - exact Hnd.
+  - exact Hlt.
+  - eexists. exists s2, s3. split; [exact E1|]. split; [exact E2|]. split; [exact E3|].
+    rewrite S3. cbn [with_der m_tb m_dir m_der]. repeat split. exact D3.
+Qed.
